@@ -128,7 +128,7 @@ func c2Entry(c *Ctx) {
 			sites = append(sites, emitSite{name: "fields", instr: cl, want: []string{}})
 			c.Check(Desc(args[0]) == "clone("+fn.Params[0].Name()+")" && Strip(args[1]) == ssa.Value(fn.Params[2]), "R2.1", name, "payload/fields", cl.Pos(), "call-site fields are added to the per-call clone")
 		case "closeOpenNamespaces":
-			if cl.Parent() == fn {
+			if cl.Parent() == fn || Eligible(cl.Parent()) {
 				sites = append(sites, emitSite{name: "close-namespaces", instr: cl, want: []string{}})
 			}
 		case "Write":
